@@ -64,6 +64,11 @@ func scribbleNames(v []string) {
 	}
 }
 
+type sessArgs struct {
+	id, sid int
+	sys     []byte
+}
+
 func driverHist(c *Ctx) {
 	steps := 40
 	if c.Tier == "thorough" {
@@ -78,6 +83,7 @@ func driverHist(c *Ctx) {
 		g.Ladder, g.LadderTo = 40, 65
 		var objs []hobj
 		var script []func() ([]interface{}, []interface{})
+		var pendingSess []sessArgs
 		c.emit(i, J{"ev": "reset"})
 		items := func() []int {
 			var r []int
@@ -182,6 +188,13 @@ func driverHist(c *Ctx) {
 				}
 				op = J{"k": "newitem"}
 				addItem(func() ast.ItemNode { return t.Build() })
+			case len(pendingSess) > 0:
+				// the second half of a scripted pair: the message just stamped is stamped again with the same session id
+				// and its system bytes written another way (leading zeros dropped, cut short, zero-extended)
+				ps := pendingSess[0]
+				pendingSess = pendingSess[1:]
+				op = J{"k": "setsession", "id": ps.id + 1, "sid": ps.sid, "sys": bytesJ(ps.sys)}
+				addMsg(func() *ast.DataMessage { return objs[ps.id].msg.SetSessionIDAndSystemBytes(ps.sid, ps.sys) }, -1)
 			case len(script) > 0:
 				// the next step of a scripted sharing pattern (see below)
 				args, desc := script[0]()
@@ -318,6 +331,15 @@ func driverHist(c *Ctx) {
 				}
 				op = J{"k": "setsession", "id": id + 1, "sid": sid, "sys": bytesJ(sys)}
 				addMsg(func() *ast.DataMessage { return objs[id].msg.SetSessionIDAndSystemBytes(sid, sys) }, -1)
+				if res["outcome"] == "new" && g.pick(3) == 0 {
+					now := objs[len(objs)-1].msg.SystemBytes()
+					lead := 0
+					for lead < 3 && now[lead] == 0 {
+						lead++
+					}
+					again := [][]byte{clone(now[lead:]), clone(now[:2]), append([]byte{0}, now...), clone(now), {}}[g.pick(5)]
+					pendingSess = append(pendingSess, sessArgs{len(objs) - 1, sid, again})
+				}
 				scribbleBytes(sys)
 			case kind == 10:
 				id := ms[g.pick(len(ms))]
